@@ -246,7 +246,11 @@ Z_DOT                = {cartesian.vz: 12.6f} [km/s]
         dfmt=DATE_FMT_DEFAULT,
     )
 
-    if kep and cart.frame.orientation in (G50, EME2000, GCRF, MOD, TOD, TEME, CIRF):
+    if (
+        kep
+        and cart.frame.center.body is not None
+        and cart.frame.orientation in (G50, EME2000, GCRF, MOD, TOD, TEME, CIRF)
+    ):
         kep = data.copy(form="keplerian")
         text += """
 COMMENT  Keplerian elements
@@ -352,7 +356,11 @@ def _dumps_xml(data, *, kep=True, **kwargs):
         x = ET.SubElement(statevector, k, units="km" if "DOT" not in k else "km/s")
         x.text = f"{getattr(cart, v) / units.km:0.6f}"
 
-    if kep and cart.frame.orientation in (G50, EME2000, GCRF, MOD, TOD, TEME, CIRF):
+    if (
+        kep
+        and cart.frame.center.body is not None
+        and cart.frame.orientation in (G50, EME2000, GCRF, MOD, TOD, TEME, CIRF)
+    ):
         kep = data.copy(form="keplerian")
         keplerian = ET.SubElement(data_tag, "keplerianElements")
 
